@@ -325,3 +325,259 @@ Proof.
   rewrite chan_of_readout_pure.
   destruct (readout_chan_d_ok (i + 1) ltac:(lia)) as (-> & _). reflexivity.
 Qed.
+
+(* ================= C. panic-free, mode-free form of the decoder ================= *)
+
+Fixpoint blocks_pure (req bpc : N) (d : list N) (cs : list chan) : bool :=
+  match cs with
+  | [] => true
+  | c :: t =>
+      match readout_chan (le_val (subN d 0 2)) with
+      | Some fc => chan_eqb fc c
+      | None => false
+      end &&
+      (le_val (subN d 2 2) =? req) &&
+      ((req mod 2 =? 0) || list_eqb (subN d (4 + 2 * req) 2) [0; 0]) &&
+      blocks_pure req bpc (dropN bpc d) t
+  end.
+
+Definition bpc_of (req : N) : N := 4 + 2 * req + 2 * (req mod 2).
+
+Definition pwb_pure (macs : list (list N)) (l : list N) : res pwb :=
+  if lenN l <? 56 then Err PE else
+  if negb (nthN l 0 =? 2) then Err PE else
+  match after_of_char (nthN l 1) with None => Err PE | Some chip =>
+  if negb (nthN l 2 =? 0) then Err PE else
+  match trigger_of (nthN l 3) with None => Err PE | Some trig =>
+  let mac := subN l 4 6 in
+  if negb (mac_known macs mac) then Err PE else
+  if negb (list_eqb (subN l 18 2) [0; 0]) then Err PE else
+  let last := le_val (subN l 20 2) in
+  if 511 <? last then Err PE else
+  let req := le_val (subN l 22 2) in
+  if 511 <? req then Err PE else
+  if 128 <=? nthN l 33 then Err PE else
+  if 128 <=? nthN l 43 then Err PE else
+  let sent := mask_chan_list (le_val (subN l 24 10)) in
+  let over := mask_chan_list (le_val (subN l 34 10)) in
+  let data := dropN 52 l in
+  let bpc := bpc_of req in
+  if negb (bpc * lenN sent + 4 =? lenN data) then Err PE else
+  if negb (blocks_pure req bpc data sent) then Err PE else
+  if negb (list_eqb (subN data (lenN data - 4) 4) [204; 204; 204; 204]) then Err PE else
+  Ok {| p_chip := chip; p_trig := trig; p_mac := mac; p_delay := le_val (subN l 10 2);
+        p_ts := le_val (subN l 12 8); p_last := last; p_req := req; p_sent := sent; p_over := over;
+        p_counter := le_val (subN l 44 4); p_fifo := le_val (subN l 48 2);
+        p_wdepth := nthN l 50; p_rdepth := nthN l 51; p_data := chunks2_le data |}
+  end end.
+
+Lemma pwb_pure_no_panic macs l : pwb_pure macs l <> Panic.
+Proof.
+  unfold pwb_pure.
+  repeat (first [case_if | destruct (after_of_char _) | destruct (trigger_of _)]; try discriminate).
+Qed.
+
+Lemma subN_dropN {A} (l : list A) a o n : subN (dropN a l) o n = subN l (a + o) n.
+Proof. unfold subN. rewrite dropN_dropN. reflexivity. Qed.
+
+Lemma rd2_ok d a : a + 2 <= lenN d -> rd2 d a = Ok (le_val (subN d a 2)).
+Proof.
+  intros H. unfold rd2. rewrite slice_from_ok by lia. cbn [bind].
+  rewrite slice_to_ok by (rewrite dropN_length; lia). cbn [bind].
+  change (takeN 2 (dropN a d)) with (subN d a 2).
+  rewrite arr_ok by (apply subN_length; assumption). reflexivity.
+Qed.
+
+Lemma land128 b : b < 256 -> (N.land b 128 =? 0) = (b <? 128).
+Proof.
+  intros H. replace 128 with (2^8 - 2^7) at 1 by reflexivity. rewrite land_run by lia.
+  change (2^(8-7)) with 2. change (2^7) with 128.
+  destruct (N.ltb_spec b 128); destruct (N.eqb_spec ((b / 128) mod 2 * 128) 0); lia.
+Qed.
+
+Lemma mask_chan_list_length num : lenN (mask_chan_list num) <= 79.
+Proof.
+  unfold mask_chan_list, mask_bits, lenN. rewrite map_length.
+  assert (H : forall (p : N -> bool) l, (length (filter p l) <= length l)%nat).
+  { intros p l. induction l as [|a t IH]; cbn [filter length]; [lia|]. destruct (p a); cbn [length]; lia. }
+  specialize (H (N.testbit num) (Nrange 79)).
+  unfold Nrange in H at 2. rewrite map_length, seq_length in H. lia.
+Qed.
+
+Lemma blocks_check_pure m req data : req <= 511 -> forall cs i,
+  bpc_of req * (i + lenN cs) + 4 <= lenN data -> i + lenN cs <= 79 ->
+  blocks_check m req (bpc_of req) data i cs =
+  if blocks_pure req (bpc_of req) (dropN (bpc_of req * i) data) cs then Ok tt else Err PE.
+Proof.
+  intros Hreq. set (bpc := bpc_of req).
+  assert (Hb : bpc <= 1028) by (unfold bpc, bpc_of; lia).
+  assert (Hb2 : 4 + 2 * req + 2 <= bpc \/ req mod 2 = 0) by (unfold bpc, bpc_of; lia).
+  assert (Hb3 : 4 + 2 * req <= bpc) by (unfold bpc, bpc_of; lia).
+  induction cs as [|c t IH]; intros i Hlen Hn; cbn [blocks_check blocks_pure]; [reflexivity|].
+  rewrite lenN_cons in Hlen, Hn.
+  replace (bpc * (i + (lenN t + 1))) with (bpc * i + bpc + bpc * lenN t) in Hlen by lia.
+  assert (Hi : bpc * i <= 1028 * 79) by (apply N.mul_le_mono; lia).
+  set (x := bpc * i) in *.
+  rewrite umul_ok by (fold x; change (2^64) with 18446744073709551616; lia). cbn [bind]. fold x.
+  rewrite rd2_ok by lia. cbn [bind]. rewrite chan_of_readout_pure.
+  rewrite !subN_dropN. rewrite N.add_0_r.
+  destruct (readout_chan (le_val (subN data x 2))) as [fc|]; cbn [bind andb]; [|reflexivity].
+  unfold guard. destruct (chan_eqb fc c); cbn [negb andb]; [|reflexivity].
+  rewrite uadd_ok by (change (2^64) with 18446744073709551616; lia). cbn [bind].
+  rewrite rd2_ok by lia. cbn [bind].
+  destruct (le_val (subN data (x + 2) 2) =? req); cbn [negb andb]; [|reflexivity].
+  assert (Hrest : blocks_check m req bpc data (i + 1) t =
+                  if blocks_pure req bpc (dropN bpc (dropN x data)) t then Ok tt else Err PE).
+  { rewrite IH by lia. rewrite dropN_dropN. unfold x. replace (bpc * (i + 1)) with (bpc * i + bpc) by lia. reflexivity. }
+  destruct (N.eqb_spec (req mod 2) 0) as [Ev|Od]; cbn [negb orb bind].
+  - exact Hrest.
+  - rewrite uadd_ok by (change (2^64) with 18446744073709551616; lia). cbn [bind].
+    rewrite umul_ok by (change (2^64) with 18446744073709551616; lia). cbn [bind].
+    rewrite uadd_ok by (change (2^64) with 18446744073709551616; lia). cbn [bind].
+    rewrite slice_from_to by lia. cbn [bind].
+    replace (x + 4 + 2 * req) with (x + (4 + 2 * req)) by lia.
+    destruct (list_eqb (subN data (x + (4 + 2 * req)) 2) [0; 0]) eqn:Ez; cbn [negb bind].
+    + exact Hrest.
+    + rewrite arr_ok by (apply subN_length; lia). reflexivity.
+Qed.
+
+Lemma le_val_snoc q x : le_val (q ++ [x]) = le_val q + 256 ^ lenN q * x.
+Proof.
+  induction q as [|y q IHq]; cbn [app le_val].
+  - rewrite (@lenN_nil N). change (256^0) with 1. lia.
+  - rewrite IHq, lenN_cons. rewrite N.add_1_r, N.pow_succ_r'. lia.
+Qed.
+
+Lemma subN_10_split l a : a + 10 <= lenN l -> subN l a 10 = subN l a 9 ++ [nthN l (a + 9)].
+Proof.
+  intros H. change 10 with (9 + 1) at 1. rewrite subN_split. rewrite nthN_subN by lia. reflexivity.
+Qed.
+
+Lemma le10_top l a : bytes l -> a + 10 <= lenN l -> nthN l (a + 9) < 128 -> le_val (subN l a 10) < 2 ^ 79.
+Proof.
+  intros Hb L H. rewrite subN_10_split by assumption.
+  assert (B9 : le_val (subN l a 9) < 256 ^ 9) by (apply le_subN_bound; [assumption|lia]).
+  rewrite le_val_snoc, subN_length by lia.
+  change (256^9) with 4722366482869645213696 in *.
+  change (2^79) with 604462909807314587353088. lia.
+Qed.
+
+Theorem pwb_decode_pure macs m l : bytes l -> pwb_decode macs m l = pwb_pure macs l.
+Proof.
+  intros Hb. unfold pwb_decode, pwb_pure, guard.
+  destruct (N.ltb_spec (lenN l) 56) as [L56|L56]; [reflexivity|].
+  rewrite !idx_nthN by lia. cbn [bind].
+  destruct (negb (nthN l 0 =? 2)); [reflexivity|].
+  destruct (after_of_char (nthN l 1)) as [chip|]; cbn [or_err bind]; [|reflexivity].
+  destruct (negb (nthN l 2 =? 0)); [reflexivity|].
+  destruct (trigger_of (nthN l 3)) as [trig|]; cbn [or_err bind]; [|reflexivity].
+  rewrite (slice_arr_eq l 4 10 6) by lia. cbn [bind].
+  destruct (negb (mac_known macs (subN l 4 6))); [reflexivity|].
+  rewrite !rd_le_eq by lia. cbn [bind].
+  rewrite (slice_ok l 18 20) by lia. cbn [bind]. change (20 - 18) with 2.
+  destruct (negb (list_eqb (subN l 18 2) [0; 0])).
+  { rewrite arr_ok by (apply subN_length; lia). reflexivity. }
+  destruct (511 <? le_val (subN l 20 2)); [reflexivity|].
+  destruct (N.ltb_spec 511 (le_val (subN l 22 2))) as [Hreq|Hreq]; [reflexivity|].
+  set (req := le_val (subN l 22 2)) in *.
+  rewrite !land128 by (apply nthN_byte; assumption).
+  destruct (N.ltb_spec (nthN l 33) 128) as [H33|H33]; cbn [negb];
+    [replace (128 <=? nthN l 33) with false by lia | replace (128 <=? nthN l 33) with true by lia; reflexivity].
+  rewrite (slice_ok l 24 34) by lia. cbn [bind]. change (34 - 24) with 10.
+  assert (L1 : lenN (subN l 24 10) = 10) by (apply subN_length; lia).
+  assert (L2 : lenN (subN l 34 10) = 10) by (apply subN_length; lia).
+  rewrite mask_chans_ok; [|assumption|].
+  2:{ apply le10_top; [assumption|lia|]. exact H33. }
+  cbn [bind].
+  destruct (N.ltb_spec (nthN l 43) 128) as [H43|H43]; cbn [negb];
+    [replace (128 <=? nthN l 43) with false by lia | replace (128 <=? nthN l 43) with true by lia; reflexivity].
+  rewrite (slice_ok l 34 44) by lia. cbn [bind]. change (44 - 34) with 10.
+  rewrite mask_chans_ok; [|assumption|].
+  2:{ apply le10_top; [assumption|lia|]. exact H43. }
+  cbn [bind].
+  rewrite slice_from_ok by lia. cbn [bind].
+  set (sent := mask_chan_list (le_val (subN l 24 10))).
+  pose proof (mask_chan_list_length (le_val (subN l 24 10))) as Hn. fold sent in Hn.
+  assert (Hbpc : (if req mod 2 =? 0
+                  then do a <- umul m 64 2 req; uadd m 64 4 a
+                  else do a <- umul m 64 2 req; do b <- uadd m 64 4 a; uadd m 64 b 2) = Ok (bpc_of req)).
+  { unfold bpc_of. destruct (N.eqb_spec (req mod 2) 0) as [Ev|Od];
+      repeat (first [rewrite umul_ok by (change (2^64) with 18446744073709551616; lia)
+                    | rewrite uadd_ok by (change (2^64) with 18446744073709551616; lia)]; cbn [bind]);
+      f_equal; lia. }
+  rewrite Hbpc. cbn [bind]. set (bpc := bpc_of req).
+  assert (Hb1 : bpc <= 1028) by (unfold bpc, bpc_of; lia).
+  assert (Hm : bpc * lenN sent <= 1028 * 79) by (apply N.mul_le_mono; lia).
+  rewrite !umul_ok by (change (2^64) with 18446744073709551616; lia). cbn [bind].
+  rewrite !uadd_ok by (change (2^64) with 18446744073709551616; lia). cbn [bind].
+  set (data := dropN 52 l).
+  destruct (N.eqb_spec (bpc * lenN sent + 4) (lenN data)) as [El|El]; cbn [negb]; [|reflexivity].
+  unfold bpc. rewrite blocks_check_pure by (fold bpc; rewrite ?N.add_0_l; lia).
+  rewrite N.mul_0_r, dropN_0. fold bpc.
+  destruct (blocks_pure req bpc data sent); cbn [bind negb]; [|reflexivity].
+  rewrite usub_ok by lia. cbn [bind].
+  rewrite slice_from_ok by lia. cbn [bind].
+  rewrite (dropN_subN data (lenN data - 4)). replace (lenN data - (lenN data - 4)) with 4 by lia.
+  destruct (list_eqb (subN data (lenN data - 4) 4) [204; 204; 204; 204]); cbn [negb]; [reflexivity|].
+  rewrite arr_ok by (apply subN_length; lia). reflexivity.
+Qed.
+
+Theorem pwb_total_lemma macs m l : bytes l -> pwb_decode macs m l <> Panic.
+Proof. intros Hb. rewrite pwb_decode_pure by assumption. apply pwb_pure_no_panic. Qed.
+
+Theorem pwb_no_wrap_lemma macs l : bytes l -> pwb_decode macs Checked l = pwb_decode macs Wrapping l.
+Proof. intros Hb. rewrite !pwb_decode_pure by assumption. reflexivity. Qed.
+
+
+Lemma succ_sorted l : StronglySorted N.lt l -> StronglySorted N.lt (map N.succ l).
+Proof.
+  induction 1 as [|a t Ht IH Ha]; cbn [map]; constructor; [assumption|].
+      rewrite Forall_forall in *. intros x Hx. apply in_map_iff in Hx. destruct Hx as (y & <- & Hy).
+      specialize (Ha y Hy). lia.
+Qed.
+Lemma aux num i : In i (mask_bits num 79) -> chan_readout (readout_chan_d (i + 1)) = N.succ i.
+Proof.
+  intros Hi. apply mask_bits_In in Hi. destruct Hi as [Hi _].
+  destruct (readout_chan_d_ok (i + 1) ltac:(lia)) as (_ & -> & _). lia.
+Qed.
+Lemma mask_chan_list_sorted num : StronglySorted N.lt (map chan_readout (mask_chan_list num)).
+Proof.
+  unfold mask_chan_list. rewrite map_map.
+  rewrite (map_ext_in _ N.succ).
+  - apply succ_sorted. apply mask_bits_sorted.
+  - apply aux.
+Qed.
+
+
+Theorem mask_chans_lemma m s : bytes s -> lenN s = 10 -> nthN s 9 < 128 ->
+  mask_chans m s = Ok (mask_chan_list (le_val s)) /\
+  mask_chan_list (le_val s) = map (fun i => readout_chan_d (i + 1)) (filter (N.testbit (le_val s)) (Nrange 79)) /\
+  StronglySorted N.lt (map chan_readout (mask_chan_list (le_val s))).
+Proof.
+  intros Hb L H. split; [|split].
+  3:{ apply mask_chan_list_sorted. }
+  2:{ reflexivity. }
+  apply mask_chans_ok.
+  assumption.
+  assert (L' : 0 + 10 <= lenN s) by lia.
+  pose proof (le10_top s 0 Hb L') as G. 
+  rewrite subN_all in G by lia. apply G. exact H.
+Qed.
+
+Theorem readout_bijection_lemma :
+  (forall m i, chan_of_readout m i = match readout_chan i with Some c => Ok c | None => Err PE end) /\
+  (forall i, readout_chan i <> None <-> 1 <= i <= 79) /\
+  (forall i c, readout_chan i = Some c -> chan_readout c = i /\ chan_valid c = true) /\
+  (forall c, chan_valid c = true -> readout_chan (chan_readout c) = Some c /\ 1 <= chan_readout c <= 79) /\
+  (forall c, chan_valid c = true <->
+             match c with Reset n => 1 <= n <= 3 | Fpn n => 1 <= n <= 4 | Pad n => 1 <= n <= 72 end) /\
+  length readout_order = 79%nat /\ NoDup readout_order.
+Proof.
+  split; [exact chan_of_readout_pure|]. split.
+  { intros i. split.
+    - destruct (readout_chan i) eqn:E; [|congruence]. intros _. eapply readout_chan_range. eassumption.
+    - intros R. destruct (readout_chan_d_ok i R) as (-> & _). discriminate. }
+  split; [intros i c H; apply readout_fwd in H; tauto|].
+  split; [exact readout_bwd|]. split; [exact chan_valid_shape|].
+  split; [reflexivity|exact readout_order_NoDup].
+Qed.
